@@ -282,7 +282,7 @@ func (cf *conditionFinder) condition(m uint32) string {
 	}
 	best := uint32(0)
 	found := false
-	// subsets by increasing size (<= 3), then by atom order
+	// subsets by increasing size (<= 2), then by atom order
 	var rec func(start, left int, cur uint32) bool
 	rec = func(start, left int, cur uint32) bool {
 		if left == 0 {
@@ -299,7 +299,7 @@ func (cf *conditionFinder) condition(m uint32) string {
 		}
 		return false
 	}
-	for size := 0; size <= 3 && !found; size++ {
+	for size := 0; size <= 2 && !found; size++ {
 		if size > len(idx) {
 			break
 		}
